@@ -795,7 +795,12 @@ func (c *StreamIterators) compactColumn(dstIdx int, ref record.Field, needCalPre
 		}
 
 		// merge full segments(full segment: rows in segment EQ 1000)
-		for segIndex := c.segmentIndex; segIndex < len(tm.entries); segIndex++ {
+		// only the source chunk a split stopped in is resumed at a segment; every later one starts at its first
+		segStart := 0
+		if itrIndex == c.iteratorStart {
+			segStart = c.segmentIndex
+		}
+		for segIndex := segStart; segIndex < len(tm.entries); segIndex++ {
 			if c.isClosed() {
 				err = ErrCompStopped
 				return
